@@ -886,8 +886,15 @@ void exec_op(const Op &op, bool in_cb, int cb_slot) {
         unsigned fl = src_flags_from(op.arg(2) & (1 | 2 | 4 | 16 | 32 | 64));
         const void *ud;
         uint64_t id = ud_new((fl & M_SRC_AUTOFREE) != 0, &ud);
+        // with M_SRC_DUP the library must keep its own copy: the caller's string lives in a temporary buffer that is released (and
+        // poisoned) right after the call
+        struct TmpStr { char *p = nullptr; ~TmpStr() { if (p) sk_free(p); } } tmp_topic;   // released when the op is over (after the before/after snapshots)
+        if (fl & M_SRC_DUP) {
+            tmp_topic.p = (char *)sk_malloc(strlen(topic) + 1);
+            strcpy(tmp_topic.p, topic);
+        }
         ApiScope a("sub", m);
-        int rc = a.done(m_mod_ps_subscribe(h, topic, (m_src_flags)fl, ud));
+        int rc = a.done(m_mod_ps_subscribe(h, tmp_topic.p ? tmp_topic.p : topic, (m_src_flags)fl, ud));
         sim::tr("sub", m, op.arg(1), rc);
         {
             regex_t tmp;
@@ -1036,6 +1043,12 @@ void exec_op(const Op &op, bool in_cb, int cb_slot) {
             long pi = valid ? op.arg(1) % PATH_POOL_N : 0;
             m_src_path_t pt;
             pt.path = valid ? PATH_POOL[pi] : "";
+            struct TmpStr { char *p = nullptr; ~TmpStr() { if (p) sk_free(p); } } tmp_path;   // (same for a DUP'd path)
+            if (valid && n == "src_path" && (src_flags_from(op.arg(2) & (1 | 2 | 4 | 16 | 32)) & M_SRC_DUP)) {
+                tmp_path.p = (char *)sk_malloc(strlen(pt.path) + 1);
+                strcpy(tmp_path.p, pt.path);
+                pt.path = tmp_path.p;
+            }
             pt.events = 0x2 | 0x100;
             if (n == "src_path") {
                 unsigned fl = src_flags_from(op.arg(2) & (1 | 2 | 4 | 16 | 32));
